@@ -1,6 +1,6 @@
 (* C12 - Printing and parsing are inverse and printing is unambiguous. *)
 From Coq Require Import List Bool String Ascii QArith.
-From Y0 Require Import Base.ListSet Dsl.Syntax Dsl.Tok Dsl.Build Dsl.Print Dsl.Parse Proofs.DslP Proofs.RoundTripBounded Dsl.Sem Proofs.TokenizeP Proofs.ParseP Proofs.EvalP Proofs.EvalSemP Proofs.BuiltP.
+From Y0 Require Import Base.ListSet Dsl.Syntax Dsl.Tok Dsl.Build Dsl.Print Dsl.Parse Proofs.DslP Proofs.RoundTripBounded Dsl.Sem Proofs.TokenizeP Proofs.ParseP Proofs.EvalP Proofs.EvalSemP Proofs.BuiltP Proofs.BuiltP2 Proofs.BuiltP3.
 Import ListNotations.
 Close Scope Q_scope.
 Open Scope string_scope.
@@ -58,6 +58,28 @@ Theorem C12_joint_builder_gives_wellformed_terms pop pre :
   wf_sem (prob_safe pop pre None [] None) = true.
 Proof. exact (wf_prob_joint pop pre). Qed.
 
+(* the conditional builder P(pre.., c.. | p.., post..) on well-formed, pairwise distinct children and parents *)
+Theorem C12_conditional_builder_gives_wellformed_terms pop pre c p post :
+  match pop with Some q => wfvar q = true | None => True end ->
+  forallb wfvar (pre ++ c) = true -> forallb wfvar (p ++ post) = true ->
+  NoDup (pre ++ c) -> NoDup (p ++ post) -> c <> [] ->
+  wf_sem (prob_safe pop pre (Some (c, p)) post None) = true.
+Proof. exact (wf_prob_conditional pop pre c p post). Qed.
+
+(* the interventional builder P[x1, .., xk](...) on variables that carry no interventions yet: whenever it does not raise, the term is well formed *)
+Theorem C12_interventional_builder_gives_wellformed_terms pop pre c p post ivs :
+  match pop with Some q => wfvar q = true | None => True end ->
+  forallb flat_var (pre ++ c) = true -> forallb flat_var (p ++ post) = true -> forallb flat_var ivs = true ->
+  NoDup (map (fun v => (vn v, vs v)) (pre ++ c)) -> NoDup (map (fun v => (vn v, vs v)) (p ++ post)) -> c <> [] ->
+  is_err (prob_safe pop pre (Some (c, p)) post (Some ivs)) = false ->
+  wf_sem (prob_safe pop pre (Some (c, p)) post (Some ivs)) = true.
+Proof. exact (wf_prob_interventional pop pre c p post ivs). Qed.
+
+Example C12_interventional_builder_not_vacuous :
+  is_err (prob_safe None [] (Some ([V 0; V 3], [V 2])) [] (Some [V 1; V 4])) = false /\
+  wf_sem (prob_safe None [] (Some ([V 0; V 3], [V 2])) [] (Some [V 1; V 4])) = true.
+Proof. vm_compute. auto. Qed.
+
 (* not vacuous: ((P(A) / P(B)) / (P(C) / P(A))) * Sum[B](P(A | B)) - a fraction of fractions as a factor of a product *)
 Example C12_meaning_not_vacuous :
   let pA := EProb None [V 0] [] in let pB := EProb None [V 1] [] in let pC := EProb None [V 2] [] in
@@ -111,6 +133,8 @@ Print Assumptions C12_printed_text_parses_to_the_intended_tree.
 Print Assumptions C12_parsed_text_means_what_the_object_means.
 Print Assumptions C12_operator_built_expressions_parse_to_the_same_meaning.
 Print Assumptions C12_joint_builder_gives_wellformed_terms.
+Print Assumptions C12_conditional_builder_gives_wellformed_terms.
+Print Assumptions C12_interventional_builder_gives_wellformed_terms.
 Print Assumptions C12_round_trip.
 Print Assumptions C12_normal_form_covers_the_family.
 Print Assumptions C12_product_denominator_is_bracketed.
